@@ -134,6 +134,8 @@ def main():
                     made = os.path.join(wt, target)
                     os.makedirs(made)
                 for f in demos:
+                    if not made and existing and len(demos) > 1 and os.path.normpath(pkg_dir(wt, f)) != os.path.normpath(existing):
+                        continue  # a second demonstration for another package: the command run here does not cover it
                     dest = os.path.join(made or os.path.join(wt, existing if existing else pkg_dir(wt, f)), os.path.basename(f))
                     shutil.copy(f, dest); placed.append(dest)
                 # other support files of the demo (non-test .go) go next to the first test file
